@@ -85,6 +85,9 @@ structure RRes where
   round : Nat
   own : List FutR
   fell : Bool
+  outs : List Outcome := []
+  env : List Val := []
+  caught : Option Err := none
   deriving Repr, Inhabited
 
 /-- await the own futures with the given indices at round `r`: unstarted tasks start now; returns the updated table
@@ -123,8 +126,8 @@ def roundsBody (cfg : Cfg) : Body → Nat → List FutR → List Outcome → Lis
   | .reyld k _, r, own, outs, env, caught => roundsBody cfg k r own outs env caught
   | .withCtx _ b k, r, own, outs, env, caught =>
     let x := roundsBody cfg b r own outs env caught
-    if x.fell then roundsBody cfg k x.round x.own outs env caught else x
-  | .endwith, r, own, _, _, _ => { round := r, own := own, fell := true }
+    if x.fell then roundsBody cfg k x.round x.own x.outs x.env x.caught else x
+  | .endwith, r, own, outs, env, caught => { round := r, own := own, fell := true, outs := outs, env := env, caught := caught }
   | .read _ k, r, own, outs, env, caught => roundsBody cfg k r own outs env caught
   | .active k, r, own, outs, env, caught => roundsBody cfg k r own outs env caught
   | .sync _ _ _ _, r, own, _, _, _ => { round := r, own := own, fell := false }     -- not yield-only
